@@ -257,8 +257,39 @@ def cases(draw, quick=True):
     return case
 
 
+L = {'t': 'leaf'}
+ENUM_PROGS = [
+    # a task that is cancelled while it submits and awaits its own children
+    {'t': 'seq', 'order': [0, 0], 'kids': [
+        {'t': 'subcancel', 'wait': False,
+         'kid': {'t': 'seq', 'order': [0, 0], 'kids': [L, L]}}, L]},
+    {'t': 'mapcancel', 'after': 0, 'kids': [
+        {'t': 'seq', 'order': [0], 'kids': [L]},
+        {'t': 'map', 'kids': [L, L]}, L]},
+    {'t': 'mapcancel', 'after': 1, 'kids': [
+        L, {'t': 'seq', 'order': [0, 0], 'kids': [L, L]}, L]},
+    {'t': 'seq', 'order': [0, 0], 'kids': [
+        {'t': 'forget', 'kids': [{'t': 'seq', 'order': [0], 'kids': [L]},
+                                 {'t': 'map', 'kids': [L, L]}]}, L]},
+]
+ENUM_BASES = [
+    ('lazy_recv', [0]), ('lazy_recv', [1, 0]), (None, [0]),
+    (None, [3, 1, 0, 2]), ('lazy_recv', [2, 1, 0, 3]),
+]
+
+
+def enum_cases(quick):
+    return sc.enum_preemptions(
+        ENUM_PROGS, ENUM_BASES[:3] if quick else ENUM_BASES,
+        (2,) if quick else (2, 3), 2 if quick else 3,
+        extra={'client': {'mode': 'none'}})
+
+
 def run_shard(ctx: core.Ctx) -> core.ShardResult:
     res = core.ShardResult()
+    done = core.run_enumeration(ctx, res, enum_cases(ctx.tier == 'quick'),
+                                check)
+    res.extra['single_preemption_enumeration_complete'] = bool(done)
     core.run_hypothesis(ctx, res, cases(ctx.tier == 'quick'), check,
                         ctx.n(200, 8000))
     return res
